@@ -581,6 +581,21 @@ def part_equiv_inplace(ctx, shard):
                         st, r = run_call(lambda: call(q))
                         ctx.outcome(("equiv", eq, fd, td, rname, ename, st, dtype))
                         ctx.decided(("equiv", eq, fu, tu, rname, ename, form, dtype))
+                        if ename == "default":
+                            # the copying twin called right AFTER the in-place call with the same equivalence (w8: equivalence
+                            # objects memoised per class, so the in-place flag of the first call leaked into the second)
+                            q2 = mkq(data.copy(), fu, form)
+                            b2 = snap(q2)
+                            st2, _r2 = run_call(lambda: q2.to_equivalent(tu, eq) if rname == "convert_to_equivalent" else q2.to(tu, equivalence=eq))
+                            d2 = diff(b2, snap(q2))
+                            ctx.decided(("equiv-sequence", eq, fu, tu, rname, form, dtype))
+                            if d2 is not None:
+                                ctx.violation(
+                                    f"C18|equiv-sequence|eq={eq}|pair={fd}->{td}|first={rname}|dtype={dtype}|mode=copying-call-after-in-place-call-changed-operand:{d2}",
+                                    {"part": "equiv", "eq": eq, "from": fu, "to": tu, "route": rname, "kw": ename, "form": form, "dtype": dtype},
+                                    "unchanged",
+                                    d2,
+                                )
                         if st == "raise":
                             d = diff(before, snap(q))
                             if d in ("numbers", "unit", "parent-numbers", "parent-unit", "shape"):
